@@ -131,6 +131,14 @@ var methods = map[string]func(e *zerolog.Event) *zerolog.Event{
 	"Array":     func(e *zerolog.Event) *zerolog.Event { return e.Array("arr", zerolog.Arr().Int(1).Str("x")) },
 	"Object":    func(e *zerolog.Event) *zerolog.Event { return e.Object("obj", aObj) },
 	// empty / nil arguments of the same methods
+	"IntsInline":     func(e *zerolog.Event) *zerolog.Event { return e.Ints("ii", []int{variant, variant + 1, -variant}) },
+	"StrsInline":     func(e *zerolog.Event) *zerolog.Event { return e.Strs("si", []string{vStr[variant], "b"}) },
+	"Floats64Inline": func(e *zerolog.Event) *zerolog.Event { return e.Floats64("fi", []float64{vF64[variant], 0.5}) },
+	"BoolsInline":    func(e *zerolog.Event) *zerolog.Event { return e.Bools("bi", []bool{variant == 0, true}) },
+	"TimesInline":    func(e *zerolog.Event) *zerolog.Event { return e.Times("ti", []time.Time{vTime[variant], vTime[0]}) },
+	"DursInline": func(e *zerolog.Event) *zerolog.Event {
+		return e.Durs("di", []time.Duration{vDur[variant], time.Second})
+	},
 	"StrBig":      func(e *zerolog.Event) *zerolog.Event { return e.Str("big", bigStr) },
 	"BytesBig":    func(e *zerolog.Event) *zerolog.Event { return e.Bytes("bigb", bigBytes) },
 	"ArrayEmpty":  func(e *zerolog.Event) *zerolog.Event { return e.Array("arr0", zerolog.Arr()) },
